@@ -446,3 +446,93 @@ Proof.
       * assert (existsb (N.eqb (fst q)) rest = true); [|congruence].
         apply existsb_exists. exists (fst q). split; [exact H|apply N.eqb_refl].
 Qed.
+
+(* ---------------- nothing is skipped by the merge ---------------- *)
+
+Lemma merge_skips_no_schema_l : forall C p,
+  NoDup (map pkey (placed_all C)) -> In p (placed_all C) ->
+  lookup_decl (decl_kind (p_decl p)) (p_ns p, decl_name (p_decl p)) (merged_schema C) = Some p.
+Proof.
+  intros C p ND Hin. rewrite merged_tables_are_the_declarations_l.
+  apply lookup_unique; auto. apply matches_key. reflexivity.
+Qed.
+
+(* ---------------- the order of blocks of different namespaces ---------------- *)
+
+Lemma first_efd_swap ns b1 b2 : b_ns b1 <> b_ns b2 -> forall pre post,
+  first_efd ns (pre ++ b1 :: b2 :: post) = first_efd ns (pre ++ b2 :: b1 :: post).
+Proof.
+  intros Hne pre post. induction pre as [|x pre IH]; cbn [app first_efd].
+  - destruct (N.eqb (b_ns b1) ns) eqn:E1, (N.eqb (b_ns b2) ns) eqn:E2; try reflexivity.
+    apply N.eqb_eq in E1, E2. congruence.
+  - rewrite IH. reflexivity.
+Qed.
+
+Lemma place_all_ext all all' : (forall ns, first_efd ns all = first_efd ns all') ->
+  forall bs seen, place seen all bs = place seen all' bs.
+Proof.
+  intro H. induction bs as [|b bs IH]; intro seen; [reflexivity|].
+  cbn [place]. rewrite H, IH. reflexivity.
+Qed.
+
+Lemma place_seen_ext all : forall bs seen seen',
+  (forall n, existsb (N.eqb n) seen = existsb (N.eqb n) seen') ->
+  place seen all bs = place seen' all bs.
+Proof.
+  induction bs as [|b bs IH]; intros seen seen' H; [reflexivity|].
+  cbn [place]. rewrite (H (b_ns b)). f_equal. apply IH.
+  intro n. cbn [existsb]. rewrite H. reflexivity.
+Qed.
+
+Lemma place_swap_head all seen b1 b2 post : b_ns b1 <> b_ns b2 ->
+  Permutation (place seen all (b1 :: b2 :: post)) (place seen all (b2 :: b1 :: post)).
+Proof.
+  intro Hne. cbn [place existsb].
+  assert (E12 : N.eqb (b_ns b2) (b_ns b1) = false) by (apply N.eqb_neq; congruence).
+  assert (E21 : N.eqb (b_ns b1) (b_ns b2) = false) by (apply N.eqb_neq; congruence).
+  rewrite E12, E21. cbn [orb].
+  rewrite (place_seen_ext all post (b_ns b2 :: b_ns b1 :: seen) (b_ns b1 :: b_ns b2 :: seen)).
+  - rewrite !app_assoc. apply Permutation_app_tail. apply Permutation_app_comm.
+  - intro n. cbn [existsb]. rewrite !orb_assoc, (orb_comm (N.eqb n (b_ns b2))). reflexivity.
+Qed.
+
+Lemma place_swap all b1 b2 post : b_ns b1 <> b_ns b2 -> forall pre seen,
+  Permutation (place seen all (pre ++ b1 :: b2 :: post)) (place seen all (pre ++ b2 :: b1 :: post)).
+Proof.
+  intro Hne. induction pre as [|x pre IH]; intro seen; cbn [app].
+  - apply place_swap_head. exact Hne.
+  - cbn [place]. apply Permutation_app_head. apply IH.
+Qed.
+
+Lemma placed_all_swap pre b1 b2 post : b_ns b1 <> b_ns b2 ->
+  Permutation (placed_all (pre ++ b1 :: b2 :: post)) (placed_all (pre ++ b2 :: b1 :: post)).
+Proof.
+  intro Hne. unfold placed_all.
+  rewrite (place_all_ext (pre ++ b2 :: b1 :: post) (pre ++ b1 :: b2 :: post)
+             (fun ns => eq_sym (first_efd_swap ns b1 b2 Hne pre post))).
+  apply place_swap. exact Hne.
+Qed.
+
+Lemma filter_length_perm {A} (f : A -> bool) l l' :
+  Permutation l l' -> length (filter f l) = length (filter f l').
+Proof.
+  induction 1 as [|x l l' _ IH|x y l|l l' l'' _ IH1 _ IH2]; cbn.
+  - reflexivity.
+  - destruct (f x); cbn; rewrite IH; reflexivity.
+  - destruct (f x), (f y); reflexivity.
+  - congruence.
+Qed.
+
+(* Two adjacent schema blocks of DIFFERENT target namespaces may be written in either
+   order (any order of the namespaces' blocks that keeps each namespace's own blocks
+   in sequence is a chain of such swaps): every type flattens to the same view. *)
+Lemma namespace_block_order_independent_l : forall pre b1 b2 post q,
+  b_ns b1 <> b_ns b2 ->
+  NoDup (map pkey (placed_all (pre ++ b1 :: b2 :: post))) ->
+  type_view (pre ++ b1 :: b2 :: post) q = type_view (pre ++ b2 :: b1 :: post) q.
+Proof.
+  intros pre b1 b2 post q Hne ND. unfold type_view, fuel_of, chain_fuel.
+  pose proof (placed_all_swap pre b1 b2 post Hne) as HP.
+  rewrite <- (Permutation_length HP), <- (filter_length_perm is_type _ _ HP).
+  apply declaration_order_independent_l; assumption.
+Qed.
